@@ -29,6 +29,7 @@ def run(rep):
     run_calls2(rep, rep.tier, ["BandsOK"], {"fwd"}, HWCodes={404}, LCodes={202}, JMax=1, Emit=False)
     linchecks.validate_executions(rep, "C07", rep.tier)
     linchecks.slice_independence(rep, "C07", rep.tier)
+    linchecks.wide_channels(rep, "C07", rep.tier)          # channel counts beyond the usual slab sizes (67, 131, 259)
     linchecks.superposition(rep, "C07", rep.tier)
     linchecks.numeric_maps(rep, "C07", rep.tier)
     rep.assumptions += ["the category table of harness/dispatch.py (operator name -> category) is trusted; unknown operators "
